@@ -143,6 +143,40 @@ def random_history(ctx, srv, g, n, label='rand', dbs=(0,)):
     return ok
 
 
+def set_algebra_history(ctx, srv, label='setalg'):
+    """SUNION / SINTER / SDIFF over every sequence of up to three keys (four in the thorough tier) drawn from: a set, a set
+    disjoint from it, a set overlapping it, a subset of it, a missing key, a key of another type — including the same key
+    several times.  The running result being empty, or a key missing, must not hide a wrong-typed key behind it."""
+    import itertools
+    kinds = [b'sa', b'sdis', b'sover', b'ssub', b'nokey', b'str', b'lst']
+    setup = [[b'SADD', b'sa', b'a', b'b', b'c'], [b'SADD', b'sdis', b'x', b'y'], [b'SADD', b'sover', b'b', b'c', b'd'], [b'SADD', b'ssub', b'a'],
+             [b'SET', b'str', b'v'], [b'RPUSH', b'lst', b'a']]
+    s = fresh_session(ctx, srv, label)
+    n = 0
+    try:
+        cid = s.open()
+        s.cmd(cid, [b'FLUSHALL'])
+        for a in setup:
+            s.cmd(cid, a)
+        for length in ((1, 2, 3) if ctx.quick else (1, 2, 3, 4)):
+            for combo in itertools.product(kinds, repeat=length):
+                if length == 4 and (combo.count(b'str') + combo.count(b'lst') + combo.count(b'nokey')) == 0:
+                    continue
+                for cmd in (b'SINTER', b'SUNION', b'SDIFF'):
+                    cid = ensure_conn(s, cid)
+                    s.cmd(cid, casefuzz(ctx.rnd, [cmd] + list(combo)))
+                    n += 1
+        cid = ensure_conn(s, cid)
+        dump_db(s, cid)
+    except ServerDied:
+        pass
+    s.close_all()
+    ctx.validate(s.trace, label=label)
+    if not srv.alive():
+        srv.restart()
+    return n
+
+
 LOOSE = [b'+%d', b'00%d', b'-0']          # written forms Redis' string2ll refuses; %d is filled with the intended value
 
 
